@@ -20,7 +20,8 @@ Proof. intros; left; reflexivity. Qed.
 
 Lemma update_inv : forall c st s, Inv c st s -> Inv c st (update c st s).
 Proof.
-  intros c st s H. unfold update. destruct (negb (a_has_model (s_ann s))); [assumption|].
+  intros c st s H. unfold update.
+  destruct (negb (a_has_model (s_ann s))); [left; reflexivity|].
   destruct (opt_str_eqb (a_hash (s_ann s)) (hash_string c st (s_ids s))); [assumption|].
   right. exists (s_ids s). split; reflexivity.
 Qed.
